@@ -1,4 +1,5 @@
 import Eru.CpuMem.ProofsNumaMem
+import Eru.CpuMem.ProofsOrder
 /-
 C04 — allocations never overcommit a node's CPU cores or memory.
 Property theorems only; helper lemmas live in Eru/CpuMem/Proofs*.lean.
@@ -287,6 +288,62 @@ theorem commit_valid_unbound (info : NodeInfo) (B maxShare count : Int) (raw w :
     0.5 core / 10 memory are committed to `exampleNode` -/
 example : (match calculateDeploy exampleNode 100 (-1) 2 { bind := true, cpuReq := 500, cpuLim := 500, memReq := 10, memLim := 10 } ["n1", "n0"] with
     | .ok ws => (match commit exampleNode ws with | .ok i => i.validate && memValid i | _ => false) | _ => false) = true := by decide
+
+/-- **getCPUPlans_length_order_indep**: the number of plans `GetCPUPlans` returns does not depend on the
+    order in which Go's map iteration visits the NUMA nodes (any two orders that are permutations of
+    each other, without repetition; any node state with map-like maps, request, max-share, affinity map).
+    Capacity (`GetNodesDeployCapacity`) and admission (`CalculateDeploy`) are separate Go calls with
+    independent map orders; this is what lets other groups treat the scheduler's plan count as a function
+    of the node state.  Proof (`CpuMem/ProofsOrder.lean`): every group plans on the initial map, so group
+    `n` can take `a_n = min(#CPU plans, ⌊free NUMA mem_n / mem⌋)` plans whatever the order; the groups
+    get `min(a_n, K_remaining)` each, together `min(Σ a_n, K)`; if memory binds it is used up and the
+    cross-NUMA phase is empty for every order, otherwise every group gets exactly its `a_n`-prefix, the
+    running subtractions commute (extensional equality of the leftover map with unchanged key list) and the
+    cross-NUMA phase is identical. -/
+theorem getCPUPlans_length_order_indep (info : NodeInfo) (origin : CpuMap) (B maxShare : Int) (req : Req)
+    (o1 o2 : List String) (ps1 ps2 : List CpuPlan) (hB : 1 ≤ B) (hwf : WF info) (hperm : o1.Perm o2) (hord : o1.Nodup)
+    (h1 : getCPUPlans info origin B maxShare req o1 = .ok ps1) (h2 : getCPUPlans info origin B maxShare req o2 = .ok ps2) :
+    ps1.length = ps2.length :=
+  Eru.CpuMem.getCPUPlans_length_order_indep info origin B hB maxShare req o1 o2 hperm hord hwf.2 hwf.1 ps1 ps2 h1 h2
+
+/-- reported capacity does not depend on the NUMA visiting order -/
+theorem capacity_order_indep (info : NodeInfo) (B maxShare : Int) (raw : RawReq) (o1 o2 : List String)
+    (hB : 1 ≤ B) (hwf : WF info) (hperm : o1.Perm o2) (hord : o1.Nodup) :
+    nodeDeployCapacity info B maxShare raw o1 = nodeDeployCapacity info B maxShare raw o2 := by
+  unfold nodeDeployCapacity
+  split
+  · rename_i w _
+    split
+    · rfl
+    · obtain ⟨ps1, h1, _⟩ := getCPUPlans_spec info [] B hB maxShare w.toReq o1 hord hwf.2 hwf.1
+      obtain ⟨ps2, h2, _⟩ := getCPUPlans_spec info [] B hB maxShare w.toReq o2 (hperm.nodup_iff.mp hord) hwf.2 hwf.1
+      rw [h1, h2]
+      simp only [Outcome.ok.injEq]
+      exact_mod_cast getCPUPlans_length_order_indep info [] B maxShare w.toReq o1 o2 ps1 ps2 hB hwf hperm hord h1 h2
+  all_goals rfl
+
+/-- whether a bound deployment of `count` instances is admitted does not depend on the NUMA visiting
+    order either (the chosen plans may differ, the verdict does not) -/
+theorem admission_order_indep (info : NodeInfo) (B maxShare count : Int) (raw : RawReq) (o1 o2 : List String)
+    (hB : 1 ≤ B) (hwf : WF info) (hperm : o1.Perm o2) (hord : o1.Nodup) :
+    (calculateDeploy info B maxShare count raw o1).isOk = (calculateDeploy info B maxShare count raw o2).isOk := by
+  unfold calculateDeploy
+  split
+  · rename_i w _
+    split
+    · unfold allocByCPU
+      obtain ⟨ps1, h1, _⟩ := getCPUPlans_spec info [] B hB maxShare w.toReq o1 hord hwf.2 hwf.1
+      obtain ⟨ps2, h2, _⟩ := getCPUPlans_spec info [] B hB maxShare w.toReq o2 (hperm.nodup_iff.mp hord) hwf.2 hwf.1
+      have hl := getCPUPlans_length_order_indep info [] B maxShare w.toReq o1 o2 ps1 ps2 hB hwf hperm hord h1 h2
+      rw [h1, h2]
+      simp only [hl]
+      split
+      · rfl
+      · split <;> rfl
+    · rfl
+  all_goals rfl
+
+example : ["n0", "n1"].Perm ["n1", "n0"] ∧ ["n0", "n1"].Nodup := by decide
 
 /-- the D6 witness (node memory 100 with 90 used, NUMA memory 50/50, request 0.5 core / 20 memory;
     fragment requests avoid the heap, whose well-founded `up`/`down` the kernel does not unfold):
